@@ -23,6 +23,26 @@ NOTES = (
 )
 
 CHECKS = {
+    "C03": {
+        "engine": "kani",
+        "technique": "bounded model checking (Kani/CBMC) of the lexer against the lexical grammar, compositional (first item + post-state, then Eof step)",
+        "text": "the six character-class predicates for every Unicode scalar value; the complete item stream of every one-character "
+                "input (1-, 2-, 3- and 4-byte characters; lead byte enumerated, continuation bytes symbolic) under every token limit: "
+                "kind, data, index, then Eof, via (A) first item + cursor post-state and (B) the step from any such state.",
+        "design_ref": "DESIGN.md section 4, C03",
+        "note": "alloc::fmt::format stubbed. Inputs of ONE character only: multi-character tokens (numbers with lookahead, strings, "
+                "escapes, block strings, comments with content, `...`) are outside this check and a mutation there is not detected.",
+    },
+    "C04": {
+        "engine": "kani",
+        "technique": "bounded model checking (Kani/CBMC): LimitTracker on its full domain, lexer limit gate on one-character inputs with a symbolic limit",
+        "text": "LimitTracker::check_and_increment/decrement/new for every (current, high, limit); nesting histories of depth <= 5 under "
+                "every limit; the lexer's token-limit gate for every 1-byte input and every limit (at most `limit` items, limit error "
+                "iff the unlimited stream is longer, nothing after it, high-water mark).",
+        "design_ref": "DESIGN.md section 4, C04",
+        "note": "the parser-level recursion/token-limit statements and the compiler's reached counters are outside the claim "
+                "(multi-token parser input and DiagnosticList are out of reach).",
+    },
     "C10": {
         "engine": "kani",
         "technique": "bounded model checking (Kani/CBMC) against byte-level reference grammars",
@@ -72,8 +92,6 @@ _P = "needs multi-token symbolic parser input: the lexer state machine costs ~10
 NOT_APPLICABLE = {
     "C01": "check not built yet in this commit (planned: lexer 1 char + stubbed-rowan parser entry points)",
     "C02": "conditional on the trailing-hole harness (DESIGN.md C02); default not applicable: " + _P,
-    "C03": "check not built yet in this commit (planned: character classes full domain + 1-char inputs)",
-    "C04": "check not built yet in this commit (planned: LimitTracker full domain + lexer gate)",
     "C05": "every grammar production needs >= 3 tokens of symbolic input; " + _P,
     "C06": "check not built yet in this commit (planned: unescape kernels on <= 4 bytes)",
     "C07": "conditional on the trailing-hole harness (DESIGN.md C07); default not applicable: " + _P,
